@@ -21,8 +21,10 @@ def check(ctx):
     if c.need("R3"):
         collector.rule_cancel_inert(ctx, c, "R3")
         collector.rule_phase_order(ctx, c, "R4", [("start", "drop"), ("drop", "commit")])
+        collector.rule_other_containers_emptied(ctx, c, "R4")
         spanrules.rule_fanout(ctx, c, "R5")
     spanrules.rule_signals_forced(ctx, facts, "R6", kinds=("DropCollect",))
     spsc.rule_force_send_keeps(ctx, facts, "R6")
     spsc.rule_replay_keeps(ctx, facts, "R6")
+    spsc.rule_sender_drop(ctx, facts, "R6")
     spsc.rule_parked_visible_to_collector(ctx, facts, "R7")
